@@ -294,7 +294,9 @@ fn mode_c10(a: &Args) -> Value {
             _ => {}
         }
         let r = Report { ref_id: 0, leap: *leap, ref_time_ns: now_ns - age, correction_bits: float_bits(1 << 10, 0), delay_bits: 0, dispersion_bits: 0, interval_bits: *iv };
-        d.send(Message::ClockErrorBoundData((tracking_of(&r), 0, ts(4001, 0))));
+        // (the PHC error bound that comes with the report is no input of the classification)
+        let phc = [0i64, 1, 12345, 3_000_000][idx % 4];
+        d.send(Message::ClockErrorBoundData((tracking_of(&r), phc, ts(4001, 0))));
         let mut ok = true;
         for _ in 0..expect_n {
             match d.wait_publication() {
